@@ -684,6 +684,21 @@ func runC07(c *vk.Ctx) {
 		}
 		wg2.Wait()
 	}
+	{
+		ngc := c.Pick(24, 480)
+		var next atomic.Int64
+		var wg3 sync.WaitGroup
+		for w := 0; w < workers; w++ {
+			wg3.Add(1)
+			go func() {
+				defer wg3.Done()
+				for i := int(next.Add(1)) - 1; i < ngc; i = int(next.Add(1)) - 1 {
+					c07GeoCorners(c, i)
+				}
+			}()
+		}
+		wg3.Wait()
+	}
 	// small scope
 	var assignments []int
 	if c.Quick() {
